@@ -145,22 +145,23 @@ Definition stmt_size (fs : str -> option (list N)) (st : state) (s : aseg) (e : 
 (* outcome of a statement of size n on the active segment s (st0: the state the statement started from) *)
 Definition cshape (s : aseg) (n : N) (st0 : state) (r : result) (st' : state) : Prop :=
   output st' = output st0 /\
-  ((active st' = Active s /\ r <> None)
+  ((active st' = Active s /\ r <> None /\ errors st' <> [])
    \/ (exists data, len data = n /\ blen s + n <= s_max s /\ active st' = Active (set_buf s (s_buf s ++ data)))).
 
 Lemma set_buf_nil s : set_buf s (s_buf s ++ []) = s.
 Proof. rewrite app_nil_r. destruct s; reflexivity. Qed.
 
-Lemma cshape_refused s n st0 st' r : output st' = output st0 -> active st' = Active s -> r <> None -> cshape s n st0 r st'.
-Proof. intros H1 H2 H3. split; [exact H1|left; split; assumption]. Qed.
+Lemma cshape_refused s n st0 st' r : output st' = output st0 -> active st' = Active s -> r <> None -> errors st' <> [] ->
+  cshape s n st0 r st'.
+Proof. intros H1 H2 H3 H4. split; [exact H1|left; repeat split; assumption]. Qed.
 
 Lemma cshape_same_push s n st0 st (S : same st0 st) (EA : active st0 = Active s) l c k lv :
   cshape s n st0 (Some lv) (push_error st l c k).
-Proof. destruct S as (E1 & E2 & _). apply cshape_refused; cbn; [exact E1|congruence|discriminate]. Qed.
+Proof. destruct S as (E1 & E2 & _). apply cshape_refused; cbn; [exact E1|congruence|discriminate|discriminate]. Qed.
 
 Lemma cshape_same_push_in s n st0 st (S : same st0 st) (EA : active st0 = Active s) f l c k lv :
   cshape s n st0 (Some lv) (push_error_in st f l c k).
-Proof. destruct S as (E1 & E2 & _). apply cshape_refused; cbn; [exact E1|congruence|discriminate]. Qed.
+Proof. destruct S as (E1 & E2 & _). apply cshape_refused; cbn; [exact E1|congruence|discriminate|discriminate]. Qed.
 
 (* write_stmt at the current address: both outcomes *)
 Lemma fresh_cases dbg st s f l c data ko kp pa r st' : Inv st -> active st = Active s -> blen s < s_max s ->
@@ -180,7 +181,7 @@ Lemma fresh_cshape dbg st0 st s f l c data ko kp pa r st' : same st0 st -> Inv s
 Proof.
   intros S HI EA Hl E. pose proof S as (E1 & E2 & E3 & E4).
   destruct (fresh_cases dbg st s f l c data ko kp pa r st' HI EA Hl E) as [(-> & ->)|(-> & Hf & ->)].
-  - split; [|discriminate]. apply cshape_refused; cbn; [exact E1|exact EA|discriminate].
+  - split; [|discriminate]. apply cshape_refused; cbn; [exact E1|exact EA|discriminate|discriminate].
   - split.
     + split; [exact E1|]. right. exists data. repeat split; auto.
     + intros _ G. split; [apply append_good; assumption|]. repeat split; cbn; congruence.
@@ -213,4 +214,187 @@ Proof.
     split; [exact E1|]. right. exists data. repeat split; auto. lia.
   - rewrite (write_overflow dbg _ s data HA ltac:(lia)). cbn [seg_update]. intros H; inversion H.
     apply cshape_same_push; [exact S|congruence].
+Qed.
+
+Lemma cshape_same s n st0 st' lv : same st0 st' -> active st0 = Active s -> errors st' <> [] -> cshape s n st0 (Some lv) st'.
+Proof. intros (E1 & E2 & _) EA He. apply cshape_refused; [exact E1|congruence|discriminate|exact He]. Qed.
+
+Lemma arity_errors st l c args n st' : arity_check st l c args n = Some st' -> errors st' <> [].
+Proof.
+  unfold arity_check. destruct (Nat.eqb (length args) n); [discriminate|].
+  destruct (Nat.ltb (length args) n); intros H; inversion H; cbn; discriminate.
+Qed.
+
+Lemma add_task_errors st t r st' : add_task st t r = Ret tt st' -> errors st' = errors st.
+Proof.
+  unfold add_task. destruct r; [intros H; inversion H; reflexivity|].
+  destruct (local_tasks st); [|discriminate]. intros H; inversion H; reflexivity.
+Qed.
+
+Lemma cshape_eq s n st0 r st2 st3 : cshape s n st0 r st2 -> output st3 = output st2 -> active st3 = active st2 ->
+  errors st3 = errors st2 -> cshape s n st0 r st3.
+Proof. unfold cshape. intros H E1 E2 E3. rewrite E1, E2, E3. exact H. Qed.
+
+Lemma write_instr_cshape dbg st0 st s ai d r st' : same st0 st -> good st -> active st = Active s -> blen s < s_max s ->
+  ai_addr ai = curr_addr s -> write_instr dbg st ai d = Ret r st' -> cshape s (isz (ai_instr ai)) st0 r st'.
+Proof.
+  intros S G EA Hl Ea. unfold write_instr. destruct (enc_bytes (ai_instr ai) 4) as [k bytes| |] eqn:E.
+  - destruct (enc_bytes_size _ _ _ _ E) as (En & Eb). rewrite Ea. intros H.
+    destruct (fresh_cshape dbg st0 st s _ _ _ _ _ _ _ r st' S (proj1 G) EA Hl H) as (C & _).
+    destruct d; [rewrite len_padding in C|]; congruence.
+  - intros H; inversion H. apply cshape_same; [eapply same_trans; [exact S|apply same_push_in]|destruct S as (_ & E2 & _); congruence|cbn; discriminate].
+  - intros H; inversion H. apply cshape_same; [eapply same_trans; [exact S|apply same_push_in]|destruct S as (_ & E2 & _); congruence|cbn; discriminate].
+Qed.
+
+Lemma instr_capacity dbg st s line col name args t r st' : good st -> active st = Active s ->
+  AsmStmtModel.template name = Some t -> assemble_instr dbg st line col name args = Ret r st' -> cshape s (isz t) st r st'.
+Proof.
+  intros G EA ET. unfold assemble_instr. rewrite EA. pose proof G as ((HR & HA) & _). rewrite EA in HA.
+  rewrite (has_remaining_spec dbg _ _ 2 HA). destruct (2 <=? s_max s - blen s) eqn:Er.
+  2:{ intros H; inversion H. apply cshape_same; [apply same_push|exact EA|cbn; discriminate]. }
+  assert (Hl : blen s < s_max s) by lia. rewrite ET.
+  set (ai := mkAI (curr_name st) line col (curr_addr s) t (AsmStmtModel.mkAst args 0)).
+  pose proof (instr_assemble_inv st ai true) as IA.
+  destruct (instr_assemble st ai true) as [[op ai'] st1|p|]; cbn [CtxModel.bind]; try discriminate.
+  destruct IA as (S1 & A1 & Z1). destruct (same_good _ _ S1 G) as (G1 & M1).
+  pose proof (same_active _ _ _ S1 EA) as EA1. cbn [ai_addr ai_instr ai] in A1, Z1. rewrite <- Z1.
+  assert (D : (do w, st2 <- write_instr dbg st1 ai' true;
+               match w with
+               | Some l => Ret (Some l) st2
+               | None => do _, st3 <- add_task st2 (InstrTask ai' false) RLocal; Ret None st3
+               end) = Ret r st' -> cshape s (isz (ai_instr ai')) st r st').
+  { destruct (write_instr dbg st1 ai' true) as [w st2|p|] eqn:EW; cbn [CtxModel.bind]; try discriminate.
+    pose proof (write_instr_cshape dbg st st1 s ai' true w st2 S1 G1 EA1 Hl A1 EW) as C.
+    destruct w as [l|]; [intros H; inversion H; subst; exact C|].
+    destruct (add_task st2 (InstrTask ai' false) RLocal) as [[] st3|p|] eqn:ET2; cbn [CtxModel.bind]; try discriminate.
+    intros H; inversion H; subst. destruct (add_task_same_seg _ _ _ _ ET2) as (O1 & O2). eapply cshape_eq; eauto. eapply add_task_errors; eauto. }
+  destruct op; [|exact D|exact D]. intros H. eapply write_instr_cshape; eauto.
+Qed.
+
+Lemma data_apply_fresh dbg st s d r0 d' st1 : good st -> active st = Active s -> blen s < s_max s -> de_addr d = curr_addr s ->
+  data_apply dbg st d true = Ret (r0, d') st1 ->
+  de_addr d' = de_addr d /\ de_kind d' = de_kind d /\ de_file d' = de_file d /\ de_line d' = de_line d /\ de_col d' = de_col d /\
+  ((r0 = DCompleted /\ cshape s (dk_size (de_kind d)) st None st1) \/ (r0 <> DCompleted /\ same st st1)).
+Proof.
+  intros G EA Hl Ea. unfold data_apply.
+  destruct (ctx_eval st (de_arg d)) as [a' [ch|ch cause]|a' e|p].
+  - destruct a' as [v| | | | | | | | | | | | | | | | |];
+      try (intros H; inversion H; repeat (split; [reflexivity|]); right; split; [discriminate|apply same_push_in]).
+    destruct ((0 <=? v)%Z && (v <=? dk_max (de_kind d))%Z).
+    + unfold write_data. cbn [de_file de_line de_col de_addr de_set_arg]. rewrite Ea.
+      destruct (write_stmt dbg st _ _ _ _ _ _ _ _) as [w st2|p|] eqn:EW; cbn [CtxModel.bind]; try discriminate.
+      intros H; inversion H; subst. repeat (split; [first [reflexivity|exact Ea]|]).
+      destruct (fresh_cshape dbg st st s _ _ _ _ _ _ _ w st1 (same_refl st) (proj1 G) EA Hl EW) as (C & _).
+      rewrite len_le_n in C. destruct w as [lv|]; [right|left; split; [reflexivity|exact C]].
+      split; [discriminate|]. eapply write_stmt_some; eauto.
+    + intros H; inversion H; repeat (split; [reflexivity|]); right; split; [discriminate|apply same_push_in].
+  - intros H; inversion H; repeat (split; [reflexivity|]); right; split; [discriminate|apply same_refl].
+  - destruct e as [name|e0]; intros H; inversion H; repeat (split; [reflexivity|]); right;
+      (split; [discriminate|first [apply same_refl|apply same_push_in]]).
+  - discriminate.
+Qed.
+
+Lemma data_capacity dbg st s line col k args r st' : good st -> active st = Active s ->
+  dir_data dbg st line col k args = Ret r st' -> cshape s (dk_size k) st r st'.
+Proof.
+  intros G EA. unfold dir_data. rewrite EA. pose proof G as ((HR & HA) & _). rewrite EA in HA.
+  rewrite (has_remaining_spec dbg _ _ (dk_size k) HA). destruct (dk_size k <=? s_max s - blen s) eqn:Er.
+  2:{ intros H; inversion H. apply cshape_same; [apply same_push|exact EA|cbn; discriminate]. }
+  assert (Hl : blen s < s_max s) by (destruct k; cbn [dk_size] in Er; lia).
+  destruct (arity_check st line col args 1) as [st0|] eqn:EAr.
+  { intros H; inversion H; subst. apply cshape_same; [eapply arity_same; eauto|exact EA|eapply arity_errors; eauto]. }
+  destruct args as [|a rest]; [discriminate|].
+  set (d := mkDE k (curr_name st) line col (curr_addr s) a).
+  destruct (data_apply dbg st d true) as [[r0 d'] st1|p|] eqn:ED; cbn [CtxModel.bind]; try discriminate.
+  destruct (data_apply_fresh dbg st s d r0 d' st1 G EA Hl eq_refl ED) as (A1 & K1 & F1 & L1 & C1 & [(-> & C)|(Hne & S1)]).
+  { intros H; inversion H; subst. exact C. }
+  assert (D : (do w, st2 <- write_data dbg st1 d' (padding (dk_size k));
+               match w with
+               | Some l => Ret (Some l) st2
+               | None => do _, st3 <- add_task st2 (DataTask d' false) RLocal; Ret None st3
+               end) = Ret r st' -> cshape s (dk_size k) st r st').
+  { destruct (same_good _ _ S1 G) as (G1 & M1). pose proof (same_active _ _ _ S1 EA) as EA1.
+    unfold write_data. cbn [de_addr d] in A1. rewrite A1.
+    destruct (write_stmt dbg st1 _ _ _ _ _ _ _ _) as [w st2|p|] eqn:EW; cbn [CtxModel.bind]; try discriminate.
+    destruct (fresh_cshape dbg st st1 s _ _ _ _ _ _ _ w st2 S1 (proj1 G1) EA1 Hl EW) as (C & _). rewrite len_padding in C.
+    destruct w as [l|]; [intros H; inversion H; subst; exact C|].
+    destruct (add_task st2 (DataTask d' false) RLocal) as [[] st3|p|] eqn:ET2; cbn [CtxModel.bind]; try discriminate.
+    intros H; inversion H; subst. destruct (add_task_same_seg _ _ _ _ ET2) as (O1 & O2). eapply cshape_eq; eauto. eapply add_task_errors; eauto. }
+  destruct r0; [congruence|exact D|exact D].
+Qed.
+
+Lemma align_capacity dbg st s line col a v ch p r st' : good st -> active st = Active s ->
+  ctx_eval st a = EvOk (AConst v) (Complete ch) -> u32_of v = Some (Npos p) ->
+  dir_align dbg st line col [a] = Ret r st' ->
+  cshape s (if curr_addr s mod Npos p =? 0 then 0 else Npos p - curr_addr s mod Npos p) st r st'.
+Proof.
+  intros G EA Ev Eu. unfold dir_align. rewrite EA. pose proof G as ((HR & HA) & _). rewrite EA in HA.
+  cbn [arity_check length Nat.eqb]. unfold eval_now. rewrite Ev. cbn [CtxModel.bind]. rewrite Eu.
+  destruct (curr_addr s mod N.pos p =? 0).
+  - intros H; inversion H; subst. split; [reflexivity|]. right. exists []. split; [reflexivity|].
+    destruct HA as (H1 & _). split; [lia|]. rewrite set_buf_nil. exact EA.
+  - rewrite (has_remaining_spec dbg _ _ _ HA).
+    destruct (N.pos p - curr_addr s mod N.pos p <=? s_max s - blen s).
+    + intros H. rewrite <- (len_padding (N.pos p - curr_addr s mod N.pos p)).
+      eapply seg_update_cshape; [apply same_refl|exact (proj1 G)|exact EA|exact H].
+    + intros H; inversion H. apply cshape_same; [apply same_push|exact EA|cbn; discriminate].
+Qed.
+
+Lemma bytes_capacity dbg fs st s line col d v n r st' : good st -> active st = Active s ->
+  match d with
+  | DStr => Some (len v)
+  | DHex => match hex_decode v None [] with HexOk bytes => Some (len bytes) | _ => None end
+  | DFile => match path_stack st with
+             | curr :: _ => option_map (fun b => len b) (fs (resolve_path curr v))
+             | [] => None
+             end
+  | _ => None
+  end = Some n ->
+  dir_bytes dbg fs st line col d [AStr v] = Ret r st' -> cshape s n st r st'.
+Proof.
+  intros G EA En. unfold dir_bytes. rewrite EA. pose proof G as ((HR & HA) & _). rewrite EA in HA.
+  cbn [arity_check length Nat.eqb].
+  destruct d; try discriminate.
+  - destruct (hex_decode v None []) as [bytes| |]; try discriminate. inversion En; subst.
+    intros H. eapply seg_update_cshape; [apply same_refl|exact (proj1 G)|exact EA|exact H].
+  - inversion En; subst. intros H. eapply seg_update_cshape; [apply same_refl|exact (proj1 G)|exact EA|exact H].
+  - destruct (path_stack st) as [|curr ps]; [discriminate|].
+    destruct (fs (resolve_path curr v)) as [bytes|]; [|discriminate]. cbn [option_map] in En. inversion En; subst.
+    rewrite (has_remaining_spec dbg _ _ _ HA). destruct (CtxSeg.len bytes <=? s_max s - blen s) eqn:Ef.
+    + rewrite (write_chunks_exact dbg _ _ s HA); rewrite concat_chunks; [|destruct HA as (HH1 & _); unfold CtxSeg.len in Ef; lia].
+      cbn [seg_update]. intros H; inversion H. split; [reflexivity|]. right. exists bytes.
+      split; [reflexivity|]. split; [destruct HA as (HH1 & _); unfold CtxSeg.len in Ef; lia|reflexivity].
+    + intros H; inversion H. apply cshape_same; [apply same_push|exact EA|cbn; discriminate].
+Qed.
+
+Theorem stmt_capacity dbg fs inc st s e n r st' : good st -> active st = Active s -> stmt_size fs st s e = Some n ->
+  step dbg fs inc st e = Ret r st' -> cshape s n st r st'.
+Proof.
+  intros G EA. unfold stmt_size, step. destruct (e_val e) as [name|name args|name args]; [discriminate| |].
+  - unfold process_directive. destruct (dir_of name) as [[]|]; try discriminate.
+    + destruct args as [|a [|? ?]]; try discriminate.
+      destruct (ctx_eval st a) as [a' ev|a' e0|p] eqn:Ev; try discriminate.
+      destruct a' as [v| | | | | | | | | | | | | | | | |]; try discriminate.
+      destruct ev as [ch|ch cause]; try discriminate.
+      destruct (u32_of v) as [[|p]|] eqn:Eu; try discriminate. cbv zeta. intros H; inversion H; subst.
+      eapply align_capacity; eauto.
+    + intros H; inversion H; subst. apply data_capacity; assumption.
+    + destruct args as [|a rest]; try discriminate. destruct a; try discriminate. destruct rest; try discriminate.
+      intros H. eapply (bytes_capacity dbg fs st s _ _ DHex); eauto.
+    + destruct args as [|a rest]; try discriminate. destruct a; try discriminate. destruct rest; try discriminate.
+      intros H. eapply (bytes_capacity dbg fs st s _ _ DStr); eauto.
+    + destruct args as [|a rest]; try discriminate. destruct a; try discriminate. destruct rest; try discriminate.
+      intros H. eapply (bytes_capacity dbg fs st s _ _ DFile); eauto.
+  - rewrite EA. destruct (AsmStmtModel.template name) as [t|] eqn:ET; [|discriminate]. cbn [option_map].
+    intros H; inversion H; subst. eapply instr_capacity; eauto.
+Qed.
+
+(* the refusal in plain words: when the statement does not fit, nothing is written anywhere and an error is returned *)
+Corollary stmt_overflow dbg fs inc st s e n r st' : good st -> active st = Active s -> stmt_size fs st s e = Some n ->
+  s_max s < blen s + n -> step dbg fs inc st e = Ret r st' ->
+  output st' = output st /\ active st' = active st /\ r <> None /\ errors st' <> [].
+Proof.
+  intros G EA En Ho E. destruct (stmt_capacity dbg fs inc st s e n r st' G EA En E) as (O & [(A & R & He)|(data & _ & F & _)]).
+  - split; [exact O|]. split; [congruence|]. split; [exact R|exact He].
+  - lia.
 Qed.
